@@ -203,6 +203,39 @@ TIME_VALS = ["1.5", "2.5", "0", "0.000249", "0.000001", "1e-6", "1e3", "1E3", "1
              "1e-400", "1.0000005", "999999.9999995", "  2", "+3.25", "1e", "1e+", ".", "", "1.001",
              "0.29", "123456", "1234567", "0.0001", "0.00001", "3600", "86400.000001", "1.5ms",
              "1d", "-1e-400", "0.1", "0.7", "33.33333333333", "4.35", "1e-7"]
+
+
+def _time_boundaries():
+    """spellings of the doubles around the limits of cf_set_time_usec: USEC*v + 0.5 at 2^64 (the
+    range check, exactly 2^64 must be rejected), 2^63 and 2^53, each +-3 ulp, as shortest repr,
+    fixed with 3 and 6 decimals, and exponent form; plus the decimal neighbours of 2^64/10^6"""
+    import math
+    out = ["18446744073709.551", "18446744073709.551615", "18446744073709.551616", "18446744073709.55",
+           "18446744073709.552", "18446744073709.549", "1.8446744073709551e13", "1.8446744073709552e13",
+           "1.844674407370955e13", "18446744073709551e-3", "9223372036854.775807", "9223372036854.775808",
+           "9.223372036854775e12", "9007199254.740992", "9007199254.740993", "9007199254.740991",
+           "9.007199254740992e9", "4294.967295", "4294.967296", "2147.483647", "2147.483648"]
+    for b in (2 ** 64, 2 ** 63, 2 ** 53):
+        x = b / 1e6
+        xs = [x]
+        up = dn = x
+        for _ in range(3):
+            up = math.nextafter(up, math.inf)
+            dn = math.nextafter(dn, -math.inf)
+            xs += [up, dn]
+        for v in xs:
+            out += [repr(v), "%.6f" % v, "%.3f" % v, "%.16e" % v]
+    seen, res = set(), []
+    for v in out:
+        if v not in seen:
+            seen.add(v)
+            res.append(v)
+    return res
+
+
+TIME_BOUNDARY = _time_boundaries()
+TIME_VALS = TIME_VALS + TIME_BOUNDARY
+
 LOOKUP_VALS = ["one", "ONE", "Two", "three", "THREE", "uno", "four", "", "on", "one ", "tw"]
 FILE_VALS = ["~", "~/x", "~alice", "~alice/p", "~bob/", "~carol/x", "plain", "/abs", "~/", "~~",
              "a~b", "", "~alice/~bob", "~/a/b"]
@@ -341,6 +374,8 @@ def rt_case(rng):
             v = "%d" % rng.below(1000000)
         elif r == 2:
             v = "%g" % (rng.below(1000000) / 10.0 ** rng.below(12))
+        elif rng.chance(1, 2):
+            v = rng.choice(TIME_BOUNDARY)
         else:
             v = rng.choice(TIME_VALS)
     elif key in ("i", "b"):
@@ -437,12 +472,10 @@ def run(ck):
                       "value aliases the stored one.  A case counts as non-trivial when it is distinct and contains a parse/load/set.")
     if not ck.quick():
         ck.leanchecker(PROP_MODULES + ["UsualProofs.C18." + m for m in
-                                       ("View", "Ref", "LineSpec", "Scan", "NumP", "ConfigP", "LoadP", "Float", "StrtodP")])
-    ck.cov["partial"] = ["set_get_roundtrip_time_partial: the setter half is proved for all values (time_usec_exact: "
-                         "for every n < 2^40 us the nearest double converts back to n; set_time_usec_every_decimal_spelling: "
-                         "the concrete strtod model on every plain decimal spelling); the getter half under the concrete "
-                         "%g model (fmtG prints the canonical spelling) is still a kernel evaluation on a finite list; with "
-                         "strtod/%g as parameters the round trip is proved in general (set_get_roundtrip_time)",
+                                       ("View", "Ref", "LineSpec", "Scan", "NumP", "ConfigP", "LoadP", "Float", "StrtodP", "FmtP")])
+    ck.cov["partial"] = ["set_get_roundtrip_time_partial: the microsecond round trip is proved for all values with <= 6 "
+                         "significant digits from 100 us to 999999 s (set_get_roundtrip_time_usec); still a finite kernel "
+                         "evaluation: values below 100 us (exponent notation of %g) and cf_set/get_time_double",
                          "cf_set_filename: $HOME / getpwnam / getpwuid are parameters (Env) of set_filename and set_filename_user"]
     rng = vf.SplitMix(ck.seed)
     nontriv = lambda c: any(l.split()[0] in ("parse", "load", "set", "setself") for l in c)
